@@ -86,7 +86,16 @@ fn check_item(it: &Item) -> Report {
                 let nk = |r: &Result<Out<f64>, String>| r.as_ref().map(|_| "Ok".to_string()).unwrap_or_else(|e| e.clone());
                 let rec = Json::obj().with("baseline", it.base.name()).with("variant", it.variant.name()).with("entry_point", ep.name()).with("symbolic_baseline", ka.as_str()).with("symbolic_variant", kb.as_str()).with("native_baseline", nk(&na)).with("native_variant", nk(&nb));
                 let qclass = if it.variant.qrank == QRank::Dyn || it.variant.qshape.len() != 1 { "general-path" } else { "fast-path" };
-                chk.finding(&format!("C13:outcome-depends-on-layout:{}:{}:{qclass}", it.role, ep.name().split('(').next().unwrap()), &format!("{}: {} answers {ka} for C-order arrays but {kb} when the {} is stored as {:?}", it.variant.name(), ep.name(), it.role, layout_of(&it.variant, it.role)), rec, Some(class(&nk(&na)) != class(&nk(&nb))));
+                // reproduced natively: the outcome kinds differ, or both answer with different values (generic values, and the
+                // axis / query constants of the symbolic scenario)
+                let nv2 = crate::c09::native_from_sym(&v, &Default::default(), 7);
+                let values_differ = |nv: &entry::Vals<f64>| match (entry::native_run(&it.base, nv, ep, None, None), entry::native_run(&it.variant, nv, ep, None, None)) {
+                    (Ok(x), Ok(y)) => x.shape != y.shape || x.values.iter().zip(&y.values).any(|(p, q)| p.to_bits() != q.to_bits()),
+                    (Err(_), Err(_)) => false,
+                    _ => true,
+                };
+                let reproduced = class(&nk(&na)) != class(&nk(&nb)) || values_differ(&nv) || values_differ(&nv2);
+                chk.finding(&format!("C13:outcome-depends-on-layout:{}:{}:{qclass}", it.role, ep.name().split('(').next().unwrap()), &format!("{}: {} answers {ka} for C-order arrays but {kb} when the {} is stored as {:?}", it.variant.name(), ep.name(), it.role, layout_of(&it.variant, it.role)), rec, Some(reproduced));
                 continue;
             }
             if let (Ok(Ok(oa)), Ok(Ok(ob))) = (a, b) {
@@ -130,7 +139,9 @@ fn check_item(it: &Item) -> Report {
                 _ => false,
             };
             if !same {
-                chk.rep.errors.push(format!("{}: {} differs natively between the layouts although the symbolic runs agree (translator validation)", it.variant.name(), ep.name()));
+                // two native runs of the real crate that differ only in the storage of one argument disagree: that is the
+                // violation itself (the symbolic scenario, whose constant queries fold the lookup, did not reach the code)
+                chk.finding(&format!("C13:value-depends-on-layout:{}:{}:native-witness", it.role, ep.name().split('(').next().unwrap()), &format!("{}: {} differs natively (generic f64 values) when the {} is stored as {:?}, although the symbolic scenario agrees", it.variant.name(), ep.name(), it.role, layout_of(&it.variant, it.role)), Json::obj().with("baseline", it.base.name()).with("variant", it.variant.name()).with("native_baseline", format!("{na:?}")).with("native_variant", format!("{nb:?}")), Some(true));
             }
         }
     }
@@ -180,6 +191,13 @@ fn items(args: &Args) -> Vec<Item> {
             scens.push(mk(Kind::Bilinear, vec![2, 2], false, qs.clone(), *qr));
             scens.push(mk(Kind::Bilinear, vec![3, 2, 2, 1], true, qs.clone(), *qr));
         }
+    }
+    // long axes (code paths keyed on the axis length or on contiguity, e.g. a slice-based search)
+    for (qs, qr) in [(vec![3], QRank::Static), (vec![2, 2], QRank::Dyn)] {
+        scens.push(mk(Kind::Linear, vec![11], false, qs.clone(), qr));
+        scens.push(mk(Kind::Spline(Bc::Natural), vec![10, 2], false, qs.clone(), qr));
+        scens.push(mk(Kind::Bilinear, vec![10, 3], false, qs.clone(), qr));
+        scens.push(mk(Kind::Bilinear, vec![2, 18], false, qs.clone(), qr));
     }
     for (si, s) in scens.iter().enumerate() {
         let scalar_ok = s.trailing().is_empty() && !s.dynamic;
